@@ -28,11 +28,12 @@ class Sim:
         random.seed(cfg['seeds'][0])
         np.random.seed(cfg['seeds'][1])
         self.ex = self.h.sage()
+        self.prefilled = bool(self.h.prefill(self.ex))
         self.calls = 0
         self.explained = 0
         self.stored = 0
         self.nonzero = False
-        self.stored_any = False
+        self.stored_any = self.prefilled
         self.exact_agree = 0
         self.exactness_lost = 0
 
@@ -43,7 +44,7 @@ class Sim:
             random.seed(op[1])
             np.random.seed(op[2])
             return None
-        x, y = self.h.row({'x': op[1], 'y': op[2]})
+        x, y = self.h.row({'x': op[1], 'y': op[2], 'perm': op[5] if len(op) > 5 else 0, 'opt': op[6] if len(op) > 6 else None})
         if kind == 'store':
             self.ex.update_storage(x, y)
             self.stored += 1
@@ -144,7 +145,7 @@ def run_case(case):
 
 
 def stream_case(cfg):
-    ops = [['explain', r['x'], r['y'], r.get('n_inner'), r.get('upd', True)] for r in cfg['stream']]
+    ops = [['explain', r['x'], r['y'], r.get('n_inner'), r.get('upd', True), r.get('perm') or 0, r.get('opt')] for r in cfg['stream']]
     c = {k: v for k, v in cfg.items() if k not in ('stream', 'mode')}
     if cfg['seeds'][0] % 5 == 0:
         c['library_defaults'] = True    # every fifth case: storage and imputer are the ones the explainer creates itself
@@ -185,7 +186,8 @@ def make_machine():
             x = [data.draw(cfgs.value_st()) for _ in range(len(cfgs.all_names(self.cfg)))]
             if self.sims[0].calls == 0:
                 upd = True
-            self._do(['explain', x, y, n_inner, upd])
+            self._do(['explain', x, y, n_inner, upd, data.draw(st.sampled_from([0, 0, 1, 2, 3])),
+                      data.draw(st.sampled_from([None, None, 1, -2]))])
 
         @rule(data=st.data(), y=st.integers(-3, 3))
         def update_storage(self, data, y):
